@@ -125,8 +125,9 @@ def _tokens(s):
 
 
 class _ExpParser:
-    def __init__(self, toks, z3, ctx, var, ops):
+    def __init__(self, toks, z3, ctx, var, ops, spell=None):
         self.t, self.i, self.z3, self.ctx, self.var, self.ops = toks, 0, z3, ctx, var, ops
+        self.spell = spell      # identifier -> the spelling (quoted or bare) of its declaration
 
     def peek(self):
         return self.t[self.i] if self.i < len(self.t) else None
@@ -186,6 +187,8 @@ class _ExpParser:
         name = v[1:-1] if v.startswith('"') and v.endswith('"') and len(v) >= 2 else v
         if self.var is not None and name not in self.var:
             raise FormatError('unknown identifier %r' % name)
+        if self.spell is not None and name in self.spell and self.spell[name] != v:
+            raise FormatError('identifier used as %s but declared as %s' % (v, self.spell[name]))
         if name not in self.var:
             self.var[name] = self.z3.Bool('e_' + name, self.ctx)
         return self.var[name]
@@ -195,8 +198,8 @@ EXP_OPS = {'not': 'not', 'and': 'and', 'or': 'or', 'imp': '->', 'iff': '<->', 'x
 CLAFER_OPS = {'not': 'not', 'and': '&&', 'or': '||', 'imp': '=>', 'iff': '<=>', 'xor': 'xor'}
 
 
-def parse_expr(s, z3, ctx, var, ops):
-    p = _ExpParser(_tokens(s), z3, ctx, var, ops)
+def parse_expr(s, z3, ctx, var, ops, spell=None):
+    p = _ExpParser(_tokens(s), z3, ctx, var, ops, spell)
     e = p.iff()
     if p.peek() is not None:
         raise FormatError('trailing tokens in %r' % s)
@@ -226,6 +229,7 @@ def clafer2z3(text, z3, ctx):
     cons = []
     feats = []      # (depth, name, group, optional)
     info = {'attr_declared': [], 'attr_used': [], 'features': [], 'instance': None, 'attr_types': {}}
+    spell = {}
     lines = text.split('\n')
     i = 0
     in_attr = False
@@ -270,6 +274,7 @@ def clafer2z3(text, z3, ctx):
         if key in var:
             raise FormatError('duplicate clafer %r' % key)
         var[key] = z3.Bool('c_' + key, ctx)
+        spell[key] = name
         info['features'].append(name)
         while stack and stack[-1][0] >= depth:
             stack.pop()
@@ -292,6 +297,8 @@ def clafer2z3(text, z3, ctx):
     inst_key = inst_of[1:-1] if inst_of.startswith('"') else inst_of
     if inst_key != root:
         raise FormatError('instance of %r, root is %r' % (inst_key, root))
+    if inst_of != spell[root]:
+        raise FormatError('instance of %s but the root is declared as %s' % (inst_of, spell[root]))
     cons.append(var[root])
     for p, ch in kids.items():
         for c, opt in ch:
@@ -318,5 +325,5 @@ def clafer2z3(text, z3, ctx):
                 z3.If(var[ch[0][0]], z3.IntVal(1, ctx), z3.IntVal(0, ctx), ctx)
             cons.append(z3.Implies(var[p], z3.And(s >= lo, s <= hi, ctx), ctx))
     for body in constraints:
-        cons.append(parse_expr(body, z3, ctx, var, CLAFER_OPS))
+        cons.append(parse_expr(body, z3, ctx, var, CLAFER_OPS, spell))
     return z3.And(cons, ctx), var, info
